@@ -374,6 +374,8 @@ class ConfigManager:
                     "INSERT OR REPLACE INTO settings (key, value) VALUES ('current_environment_api_url', ?)",
                     (DEFAULT_ENVIRONMENT.api_url,),
                 )
+                # the active profile belonged to the deleted environment
+                conn.execute("DELETE FROM settings WHERE key = 'current_profile'")
 
             conn.commit()
             return True
